@@ -132,4 +132,4 @@ evaluate = with_variants(evaluate_one)
 
 def sweeps(tier):
     # deterministic part: flat schedulers of 9 .. 1025 members (just above powers of two)
-    return [S.ladder_sweep(['timeout'])]
+    return [S.time_ladder_sweep(), S.ladder_sweep(['timeout'])]
